@@ -47,13 +47,6 @@ OpOf(cc) == CASE cc.kind = "var" -> Variadic[cc.o]
               [] OTHER -> K_add
 RuleOf(cc) == IF cc.kind \in {"var", "bin", "neg"} THEN Op(OpOf(cc), Vals(cc)) ELSE Null
 
-\* helper results: a double as a float-spelled number, or "NaN"/"Infinity"/"-Infinity"; None / Err as Err
-S_NaN == <<78, 97, 78>>
-FVal(f) == CASE f.k = "nan" -> Str(S_NaN)
-             [] f.k = "pinf" -> Str(S_Infinity)
-             [] f.k = "ninf" -> Str(<<45>> \o S_Infinity)
-             [] OTHER -> FloatNum(f)
-OptF(f) == IF f.k = "nan" THEN Fail(<<>>) ELSE R(TRUE, FVal(f), <<>>)
 HelperName(cc) ==
   CASE cc.kind = "hconv" -> <<"parse_float", "to_number", "to_negative">>[cc.o]
     [] cc.kind = "hbin" -> <<"abstract_minus", "abstract_div", "abstract_mod", "abstract_plus">>[cc.o]
